@@ -534,6 +534,67 @@ func c31(repo string, out *fg.Out) error {
 		}
 	}
 
+	// ---- guards added by the C31 repairs (each is either present in its expected shape or absent)
+	findIf := func(fn, cond string) (bool, string, error) {
+		fd, err := need(fn)
+		if err != nil {
+			return false, "", err
+		}
+		found, act := false, ""
+		ast.Inspect(fd.Body, func(n ast.Node) bool {
+			if is, ok := n.(*ast.IfStmt); ok {
+				c := api.Text(is.Cond)
+				if is.Init != nil {
+					c = api.Text(is.Init) + "; " + c
+				}
+				if strings.Join(strings.Fields(c), " ") == cond {
+					found, act = true, lastAction(api, is.Body)
+				}
+			}
+			return true
+		})
+		return found, act, nil
+	}
+	guard := func(fn, cond, wantAct string) (bool, error) {
+		f, act, err := findIf(fn, cond)
+		if err != nil {
+			return false, err
+		}
+		if f && act != wantAct {
+			return false, fmt.Errorf("%s: guard `%s` ends in %s (expected %s)", fn, cond, act, wantAct)
+		}
+		return f, nil
+	}
+	rejectLong, err := guard("importCSV", "len(rec) > len(header)", "return-error")
+	if err != nil {
+		return err
+	}
+	hdrUnderscore, err := guard("validateImportHeader", "name[0] == '_'", "return-error")
+	if err != nil {
+		return err
+	}
+	u64Checked, err := guard("arrowColumnToTyped", "!a.IsNull(i) && a.Value(i) > math.MaxInt64", "return-error")
+	if err != nil {
+		return err
+	}
+	g1, _, _ := findIf("inferAndConvertColumn", "intBuf[j] > 1<<53 || intBuf[j] < -(1<<53)")
+	g2, _, _ := findIf("inferAndConvertColumn", "f >= 1<<53 || f <= -(1<<53)")
+	g3, _, _ := findIf("inferAndConvertColumn", "_, ierr := strconv.ParseInt(s, 10, 64); ierr == nil || errors.Is(ierr, strconv.ErrRange)")
+	if g1 != g2 || g2 != g3 {
+		return fmt.Errorf("inferAndConvertColumn: the 2^53 exactness guards are only partly present (migration=%v parse=%v int-literal=%v)", g1, g2, g3)
+	}
+	inexactText := g1
+	csvFd, _ := need("importCSV")
+	csvBody := api.Text(csvFd.Body)
+	bomFirst := false
+	switch {
+	case strings.Contains(csvBody, "br.Peek(3)") && strings.Contains(csvBody, "br.Discard(3)") && strings.Contains(csvBody, "csv.NewReader(br)"):
+		bomFirst = true
+	case strings.Contains(csvBody, "csv.NewReader(r)"):
+	default:
+		return fmt.Errorf("importCSV: unrecognised construction of the csv reader (BOM handling)")
+	}
+
 	// ---- emit
 	w := &out.Lean
 	fmt.Fprintf(w, "namespace Arc.Generated.C31\n")
@@ -607,7 +668,17 @@ func c31(repo string, out *fg.Out) error {
 		fmt.Fprintf(w, "(%s, %d, %d, %d, %v)", fg.LeanStr(s.Fn), s.Writes, s.ReturnsBefore, s.ReturnsAfter, s.FlushAfter)
 	}
 	fmt.Fprintf(w, "]\n/-- number of `if name[0] == '_' { continue }` guards in ArrowWriter.inferSchema/getSchema -/\ndef underscoreSkips : Nat := %d\n", skipUnderscore)
+	fmt.Fprintf(w, "/-- importCSV rejects a record longer than the header -/\ndef rejectLongRows : Bool := %v\n", rejectLong)
+	fmt.Fprintf(w, "/-- validateImportHeader rejects column names starting with `_` -/\ndef headerRejectsUnderscore : Bool := %v\n", hdrUnderscore)
+	fmt.Fprintf(w, "/-- arrowColumnToTyped rejects UINT64 values above MaxInt64 -/\ndef uint64RangeChecked : Bool := %v\n", u64Checked)
+	fmt.Fprintf(w, "/-- inferAndConvertColumn keeps a column text when an integer cell is not exactly a float64 -/\ndef inexactIntsStayText : Bool := %v\n", inexactText)
+	fmt.Fprintf(w, "/-- importCSV strips a UTF-8 BOM before the csv reader (tokenisation is a parameter; the harness mirrors this) -/\ndef bomStrippedBeforeTokenising : Bool := %v\n", bomFirst)
 	fmt.Fprintf(w, "end Arc.Generated.C31\n")
+	out.JSON["reject_long_rows"] = rejectLong
+	out.JSON["header_rejects_underscore"] = hdrUnderscore
+	out.JSON["uint64_range_checked"] = u64Checked
+	out.JSON["inexact_ints_stay_text"] = inexactText
+	out.JSON["bom_stripped_before_tokenising"] = bomFirst
 
 	out.JSON["int_time"] = intTime
 	out.JSON["int_time_default"] = intTimeDef
